@@ -510,6 +510,24 @@ def run(ctx):
                                     ctx.bad(R_narrow, "C2|%s|%s|%s" % (path, opk, "+".join(w.split("→")[0] for w in whys2)), "%s:%d" % (f.file, t["ln"]),
                                             "%s of two input fields (%s) carried out in %s, the width they were read at, with no bound on either" % (opk, ", ".join(w.split("→")[0] for w in whys2), tn),
                                             "ordinary hostile values overflow: panic `attempt to %s with overflow` in builds with overflow checks, a wrapped (small) value elsewhere" % ("add" if opk == "Add" else "multiply"))
+                        elif opk == "Add" and any(whys2) and not all(whys2) and (mirg.op_int(t["ops"][1] if whys2[0] else t["ops"][0]) or 0) >= 1:
+                            # C4: an input field plus a constant, carried out at the width the field was read at (`header_size + 2` in
+                            # u32): the field's maximum value overflows it.  (Widened first — `x as usize + 2` — it cannot.)
+                            tainted_op = t["ops"][0] if whys2[0] else t["ops"][1]
+                            w_ = whys2[0] or whys2[1]
+                            m_ = re.match(r"(?:field|read read_)[ ]?[ui](\d+)", w_.replace("field ", "field"))
+                            l0 = op_local(tainted_op)
+                            tn = (f.crate.ty(f.mir["locals"][l0][0]) or "") if l0 is not None else ""
+                            ob = int(re.sub(r"\D", "", tn)) if re.fullmatch(r"[ui](8|16|32)", tn) else None
+                            # only a value used exactly as read (no arithmetic / call between the read and this addition)
+                            direct = all(st_ in ("branch", "unwrap", "expect", "into", "from", "clone", "deref", "map_err", "ok_or", "ok_or_else", "copied", "cloned") for st_ in w_.split("→")[1:])
+                            if m_ and ob is not None and int(m_.group(1)) == ob and direct:
+                                if ft.upper_bounded_at(tainted_op, bb):
+                                    ctx.ok(R_narrow, {"fn": path, "op": opk, "line": t["ln"], "sanitised": True, "form": "field + constant"})
+                                else:
+                                    ctx.bad(R_narrow, "C4|%s|Add|%s" % (path, w_.split("→")[0]), "%s:%d" % (f.file, t["ln"]),
+                                            "an input field (%s) has a constant added in %s, the width it was read at, with no upper bound on it" % (w_, tn),
+                                            "the field's largest values overflow the sum: panic `attempt to add with overflow` in builds with overflow checks, a wrapped (tiny) length elsewhere")
                         elif opk == "Mul" and any(whys2) and not all(whys2):
                             # C3: an input-derived count multiplied by an element size *in 32 bits* (or less): the product of a hostile
                             # count and any size >= 2 wraps.  (In 64 bits the same product of 32-bit sources cannot.)
